@@ -1,6 +1,7 @@
 import Abverif.Proofs.C03
 import Abverif.Proofs.Lemmas.SchemaTotal
 import Abverif.Proofs.Lemmas.SchemaStrict
+import Abverif.Proofs.Lemmas.SchemaRolesSpec
 import Abverif.Proofs.Lemmas.UriGrammar
 /-
 C08 — untrusted WAMP input is either a valid message or a protocol error.  Property theorems.
@@ -168,8 +169,7 @@ theorem schemas_wfCross : ∀ σ ∈ all25, σ.wfCross = true := by
 selected by its flags (REGISTER: by the `match` option), every positional `str`/`dict`/enum has its type, every
 option holds its default or a value that passes its type check (`OTy.valid`), args/kwargs/payload and the `enc_*`
 triple have the shapes the constructor asserts, and the attribute names are exactly the class's.
-What is missing w.r.t. `ParseStrictSpec`: the recogniser is today's regex, not the intended grammar (closed by
-`uri_equiv_partial`), and `OTy.valid` is the *checked* type: ids inside options are only `int`, `boolLoose` admits
+What is missing w.r.t. `ParseStrictSpec`: the recogniser is the regenerated regex (equal to the intended grammar by `uri_equiv`), and `OTy.valid` is the *checked* type: ids inside options are only `int`, `boolLoose` admits
 0/1, `forwardFor false` admits any list (the witnesses below). -/
 theorem parse_strict (σ : Schema) (hσ : σ ∈ roundTrip23) (O : Oracles) (w : List WVal) (m : Msg)
     (h : σ.parse O w = .ok m) : σ.strict O m = true := by
@@ -199,6 +199,29 @@ theorem parse_strict_uris (σ : Schema) (hσ : σ ∈ roundTrip23) (O : Oracles)
     (h : σ.parse O w = .ok m) (f : Str) (fl : UriFlags) (hf : PosStep.uri f fl ∈ σ.pos) :
     uriOk O fl (m.get f) = true :=
   (strict_parts (parse_strict σ hσ O w m h)).2.1 _ hf
+
+/-- the regenerated flags: every one of the 13 `forward_for` loops of `parse` is a `for/else` (since /repo e992b44c) and
+its entry check admits `authid: None` like the constructors and `marshal()` (since 5051ad59).  Re-introducing the
+`for … break … valid = True` shape in any class makes this theorem fail to build. -/
+theorem forward_for_loops_repaired :
+    [ffFixed_Error, ffFixed_Publish, ffFixed_Subscribe, ffFixed_Unsubscribe, ffFixed_Event, ffFixed_Call, ffFixed_Cancel,
+     ffFixed_Result, ffFixed_Register, ffFixed_Unregister, ffFixed_Invocation, ffFixed_Interrupt, ffFixed_Yield].all id = true ∧
+    ffAuthidNoneOk = true := by decide
+
+/-- hence an accepted `forward_for` is absent or a list of well-formed entries (dict with `session: int`,
+`authid: str | None`, `authrole: str`) — in every class that has the option -/
+theorem parse_strict_forward_for (σ : Schema) (hσ : σ ∈ roundTrip23) (O : Oracles) (w : List WVal) (m : Msg)
+    (h : σ.parse O w = .ok m) (s : OptStep) (hs : s ∈ σ.opts) (hty : s.ty = .forwardFor true) (hd : s.dflt = .null) :
+    m.get s.field = .null ∨ ∃ xs, m.get s.field = .list xs ∧ xs.all ffItemParseOk = true := by
+  have hst := (strict_parts (parse_strict σ hσ O w m h)).2.2.1 s hs
+  simp only [OptStep.strict, Bool.or_eq_true, hd, hty] at hst
+  rcases hst with h0 | h1
+  · exact Or.inl (isDflt_eq h0)
+  · right
+    cases hv : m.get s.field <;> simp_all [OTy.valid]
+
+example : (Schemas.call.opts.filter (fun s => s.field == cs!"forward_for")).map (fun s => (s.ty matches .forwardFor true)) = [true] := by
+  decide
 
 /-- witnesses that `ParseStrictSpec` fails today (each is a concrete accepted input with a Spec violation) -/
 theorem strict_witness_trailing_newline :
@@ -231,6 +254,43 @@ theorem not_parseStrictSpec : ¬ ParseStrictSpec := by
     have := h _ σ m he
     simp [this] at hw
   · simp at hw
+
+/-! ## HELLO / WELCOME role dictionaries -/
+
+/-- **roles: accepted iff the Spec accepts.**  For any role-name list and feature table, the parse model's check of a
+`roles` value succeeds exactly on the values `rolesAccept` describes: non-empty str-keyed dict, allowed role names,
+dict-valued roles, `features` (if present) a str-keyed dict in which every *known* feature of that role is absent,
+null or a JSON bool; unknown feature names ignored; a feature named `self` not accepted. -/
+theorem roles_accept_iff (site : Str) (allowed : List Str) (feats : List (Str × List Str)) (v : WVal) :
+    isOkB (rolesCheck site allowed feats v) = rolesAccept allowed feats v :=
+  rolesCheck_isOk_iff site allowed feats v
+
+/-- HELLO: whatever `Hello.parse` accepts carries details whose `roles` satisfy the Spec for the client roles
+(`subscriber`, `publisher`, `caller`, `callee`; names and features regenerated from message.py / role.py) -/
+theorem hello_roles_spec (O : Oracles) (w : List WVal) (m : Msg) (h : Schemas.hello.parse O w = .ok m) :
+    ∃ rv, Dict.get? (Schemas.hello.optsOf w) cs!"roles" = some rv ∧ rolesAccept helloRoles roleFeatures rv = true :=
+  parse_roles_spec Schemas.hello O w m h
+    { field := cs!"roles", key := cs!"roles", ty := .roles helloRoles roleFeatures, required := true, mm := .always }
+    (by simp [Schemas.hello]) helloRoles roleFeatures rfl rfl
+
+/-- WELCOME: the same for the router roles (`broker`, `dealer`) -/
+theorem welcome_roles_spec (O : Oracles) (w : List WVal) (m : Msg) (h : Schemas.welcome.parse O w = .ok m) :
+    ∃ rv, Dict.get? (Schemas.welcome.optsOf w) cs!"roles" = some rv ∧ rolesAccept welcomeRoles roleFeatures rv = true :=
+  parse_roles_spec Schemas.welcome O w m h
+    { field := cs!"roles", key := cs!"roles", ty := .roles welcomeRoles roleFeatures, required := true, mm := .always }
+    (by simp [Schemas.welcome]) welcomeRoles roleFeatures rfl rfl
+
+/-- every role that HELLO / WELCOME admit has its feature list in the regenerated table, and each list is non-empty -/
+theorem role_tables_cover :
+    (helloRoles ++ welcomeRoles).all (fun r => !(roleKnown roleFeatures r).isEmpty) = true := by decide
+
+/-- instances: a falsy non-bool value of a known feature is rejected (ProtocolError), in HELLO and in WELCOME -/
+theorem falsy_feature_rejected :
+    errClass? (unserializeOne oracles (.list [.int 1, .str cs!"realm1",
+      .dict [(cs!"roles", .dict [(cs!"caller", .dict [(cs!"features", .dict [(cs!"call_timeout", .int 0)])])])]])) = some .protocol ∧
+    errClass? (unserializeOne oracles (.list [.int 2, .int 1,
+      .dict [(cs!"roles", .dict [(cs!"dealer", .dict [(cs!"features", .dict [(cs!"call_timeout", .str [])])])])]])) = some .protocol := by
+  decide +kernel
 
 /-! ## re-parse: the re-marshalled form of an accepted message -/
 
@@ -308,28 +368,40 @@ theorem accepted_envelope (O : Oracles) (v : WVal) (σ : Schema) (m : Msg) (h : 
 /-- every code in the regenerated `MESSAGE_TYPE_MAP` is the `MESSAGE_TYPE` of the class it maps to, and there are 25 -/
 theorem typeMap_consistent : typeMap.map (fun e => (e.2, e.1)) = messageTypes := by decide
 
-/-! ## URI recognisers (regenerated from `_URI_PAT_*`): regex ⇔ intended grammar -/
+/-! ## URI recognisers (regenerated from `_URI_PAT_*`): regex ⇔ intended grammar
 
-/-- **full statement** per flag triple (false today — F2): `check_or_raise_uri` accepts exactly the intended grammar -/
-abbrev UriEquivAll : Prop := ∀ strict ae ale, Uri.UriEquiv strict ae ale
+FULL since /repo 8a098028 (patterns end in `\Z`, classes use `0-9`).  Before that fix these were `_partial` theorems with
+the hypotheses "no trailing newline" / "no non-ASCII digit" (finding F2); re-introducing `$` or `\d` breaks them. -/
 
-/-- **partial form**: equality holds for every string that does not end in "\n" (while the pattern ends in `$`) and,
-in strict mode, contains no non-ASCII decimal digit (while the class uses `\d`) — both hypotheses become vacuous
-once the source uses `\Z` and `[0-9]` -/
-theorem uri_equiv_partial (strict ae ale : Bool) (s : List Char)
-    (hnl : (Uri.pat strict ae ale).anchor = .dollar → s.getLast? ≠ some '\n')
-    (hdg : (Uri.uriClass strict ae ale).usesDigit = true → ∀ c ∈ s, Rx.isDigit c = true → c.toNat < 128) :
+/-- **`check_or_raise_uri` accepts exactly the intended grammar**, for all six patterns (every flag triple) and every
+string: components split on '.', characters `[0-9a-z_]` (strict) or anything but whitespace, '.', '#' (loose), emptiness
+of components as the flags say -/
+theorem uri_equiv (strict ae ale : Bool) (s : List Char) :
     Uri.check strict ae ale s = Uri.Spec.ok strict ae ale s :=
-  Uri.uri_equiv_partial strict ae ale s hnl hdg
+  Uri.uri_equiv strict ae ale s
 
-example : Uri.check true false false cs!"com.example.topic1" = Uri.Spec.ok true false false cs!"com.example.topic1" :=
-  uri_equiv_partial _ _ _ _ (by decide) (by decide)
+example : Uri.check true false false cs!"com.example.topic1" = true := by
+  rw [uri_equiv]; decide
 
-/-- the intended grammar is always accepted (no hypotheses) -/
-theorem uri_complete (strict ae ale : Bool) (s : List Char) (h : Uri.Spec.ok strict ae ale s = true) :
-    Uri.check strict ae ale s = true := Uri.uri_complete strict ae ale s h
+/-- `_CUSTOM_ATTRIBUTE` (used by `is_valid_enc_algo` / `is_valid_enc_serializer` and WELCOME's custom attributes) -/
+theorem custom_attr_equiv (s : List Char) : Uri.customAttr s = Uri.CustomAttr.Spec.ok s := Uri.custom_attr_equiv s
 
-/-- F2 witnesses: "a.b\n" is accepted under every flag triple; "a.٣" in strict mode -/
+/-- the four realm-name patterns -/
+theorem realm_name_equiv (s : List Char) : Uri.realmName s = Uri.Realm.Spec.name s := Uri.realm_name_equiv s
+theorem realm_eth_equiv (s : List Char) : Uri.realmEth s = Uri.Realm.Spec.eth s := Uri.realm_eth_equiv s
+theorem realm_ens_equiv (s : List Char) : Uri.realmEns s = Uri.Realm.Spec.ens s := Uri.realm_ens_equiv s
+theorem realm_ens_reverse_equiv (s : List Char) : Uri.realmEnsReverse s = Uri.Realm.Spec.ensReverse s :=
+  Uri.realm_ens_reverse_equiv s
+
+/-- consequently an accepted positional URI lies in the **intended grammar** for its flags (not merely "passed the regex") -/
+theorem parse_strict_uris_grammar (σ : Schema) (hσ : σ ∈ roundTrip23) (w : List WVal) (m : Msg)
+    (h : σ.parse oracles w = .ok m) (f : Str) (fl : UriFlags) (hf : PosStep.uri f fl ∈ σ.pos) :
+    specUriOk Uri.Spec.ok fl (m.get f) = true := by
+  have hu := parse_strict_uris σ hσ oracles w m h f fl hf
+  cases hv : m.get f <;> simp_all [uriOk, specUriOk, oracles, Uri.uri_equiv _ _ _ _]
+
+/-- legacy F2 witnesses, guarded by the regenerated end anchor / character class: vacuous since 8a098028, they become
+live again (and `uri_equiv` stops building) if `$` or `\d` return -/
 theorem f2_trailing_newline_witness (strict ae ale : Bool) :
     (Uri.pat strict ae ale).anchor = .dollar →
       Uri.check strict ae ale cs!"a.b\n" = true ∧ Uri.Spec.ok strict ae ale cs!"a.b\n" = false :=
@@ -339,12 +411,5 @@ theorem f2_unicode_digit_witness (ae ale : Bool) :
     (Uri.uriClass true ae ale).usesDigit = true →
       Uri.check true ae ale ['a', '.', '٣'] = true ∧ Uri.Spec.ok true ae ale ['a', '.', '٣'] = false :=
   Uri.f2_unicode_digit_witness ae ale
-
-/-- `_CUSTOM_ATTRIBUTE` (used by `is_valid_enc_algo` / `is_valid_enc_serializer` and WELCOME's custom attributes) -/
-theorem custom_attr_equiv_partial (s : List Char)
-    (hnl : Rx._CUSTOM_ATTRIBUTE.anchor = .dollar → s.getLast? ≠ some '\n')
-    (hdg : Uri.caRest.usesDigit = true → ∀ c ∈ s, Rx.isDigit c = true → c.toNat < 128) :
-    Uri.customAttr s = Uri.CustomAttr.Spec.ok s :=
-  Uri.custom_attr_equiv_partial s hnl hdg
 
 end Abverif.Wamp
